@@ -225,3 +225,63 @@ def run(ctx):
         same_term(ob, v, T.slice_(T.raw_op('CHK', s), T.const(1), T.NONE), 'b58decode_addr is the checksummed payload without its version byte', fba.where)
     from . import loops
     loops.check_base58(ctx)
+
+
+def thorough(ctx):
+    """C10.REFPAIR: the specification side is validated, not only trusted - the reference pair (sa/spec/ref/.../helper.py, the
+    algorithm the repository's functions are compared with by C10.LOOPS; the hand proof in DESIGN.md says it is mutually
+    inverse) is executed exhaustively on every byte string of length 1..2, every string over the alphabet of length 1..2,
+    all-zero / all-'1' inputs up to length 64 and 20 000 pseudo-random inputs (seeded by VERIF_SEED), and against the
+    published Bitcoin Core vectors.  Only the reference transcription is executed here, never the repository."""
+    import os, random
+    refp = os.path.join(os.path.dirname(os.path.dirname(os.path.abspath(__file__))), 'spec', 'ref', 'btc_hd_wallet', 'helper.py')
+    with ctx.obligation('C10.REFPAIR', 'reference Base58 pair (specification side)', None, 'sa/spec/ref/btc_hd_wallet/helper.py') as ob:
+        ns = {}
+        exec(compile(open(refp).read(), refp, 'exec'), ns)
+        enc, dec, A = ns['encode_base58'], ns['decode_base58'], ns['BASE58_ALPHABET']
+        bad = []
+        n = 0
+
+        def chk_b(b):
+            nonlocal n
+            n += 1
+            if dec(enc(b)) != b and len(bad) < 5:
+                bad.append(('bytes', b.hex()))
+
+        def chk_s(t):
+            nonlocal n
+            n += 1
+            if enc(dec(t)) != t and len(bad) < 5:
+                bad.append(('text', t))
+        for a in range(256):
+            chk_b(bytes([a]))
+            for b_ in range(256):
+                chk_b(bytes([a, b_]))
+        for c1 in A:
+            chk_s(c1)
+            for c2 in A:
+                chk_s(c1 + c2)
+        for k in range(1, 65):
+            chk_b(b'\x00' * k)
+            chk_s('1' * k)
+            chk_b(b'\x00' * k + b'\x01')
+            chk_s('1' * k + 'z')
+        rnd = random.Random(ctx.seed)
+        for _ in range(20000):
+            L = rnd.randrange(1, 90)
+            z = rnd.choice((0, 0, 0, 1, 2, 5))
+            chk_b(b'\x00' * z + bytes(rnd.randrange(256) for _ in range(L)))
+            chk_s('1' * z + ''.join(rnd.choice(A) for _ in range(L)))
+        vectors = [('', ''), ('61', '2g'), ('626262', 'a3gV'), ('636363', 'aPEr'), ('73696d706c792061206c6f6e6720737472696e67', '2cFupjhnEsSn59qHXstmK2ffpLv2'),
+                   ('00eb15231dfceb60925886b67d065299925915aeb172c06647', '1NS17iag9jJgTHD1VXjvLCEnZuQ3rJDE9L'), ('516b6fcd0f', 'ABnLTmg'),
+                   ('bf4f89001e670274dd', '3SEo3LWLoPntC'), ('572e4794', '3EFU7m'), ('ecac89cad93923c02321', 'EJDM8drfXA6uyA'),
+                   ('10c8511e', 'Rt5zm'), ('00000000000000000000', '1111111111')]
+        for hx, txt in vectors:
+            n += 1
+            if enc(bytes.fromhex(hx)) != txt or (txt and dec(txt) != bytes.fromhex(hx)):
+                bad.append(('vector', hx, txt))
+        ob.evaluations += n
+        ob.saw('sa/spec/ref/btc_hd_wallet/helper.py')
+        ob.require(not bad, 'the reference Base58 pair is mutually inverse on every input tried and reproduces the published vectors',
+                   'sa/spec/ref/btc_hd_wallet/helper.py', found=bad)
+        ob.note('%d inputs: all byte strings and alphabet strings of length 1..2, zero / one runs up to 64, 40 000 pseudo-random, 12 published vectors' % n)
